@@ -86,6 +86,15 @@ def minutes(tier):
             yield {'t': [d.year, d.month, d.day, h, mi, s], 'qty': 3}
 
 
+def year_days(tier):
+    d = D.date(2020, 1, 1)
+    k = 0
+    while d <= D.date(2021, 12, 31):
+        k += 1
+        yield {'t': [d.year, d.month, d.day, 15, 0, 0], 'qty': 4 if k % 2 else -4}
+        d += D.timedelta(days=1)
+
+
 def post(info):
     if not info.get('fills'):
         return 'no fill occurred in the generated histories'
@@ -94,4 +103,5 @@ def post(info):
 HIST = Part('histories', 'machine', run_history, machine=_machine, quick=2500, thorough=64000, quick_shards=8,
             steps=(40, 60))
 HIST.new_harness = new_harness
-PARTS = [HIST, Part('minutes', 'sweep', run_minute, sweep=minutes, quick_shards=4, exhaustive=True)]
+PARTS = [HIST, Part('minutes', 'sweep', run_minute, sweep=minutes, quick_shards=4, exhaustive=True),
+         Part('days', 'sweep', run_minute, sweep=year_days, quick_shards=4, exhaustive=True)]
